@@ -79,12 +79,24 @@ LINKS = {
     },
     "C05": {
         "modules": ["RtrProofs.CLinkFsm"],
-        "modules_extra": ["RtrProofs.CLinkSync"],
+        "modules_extra": ["RtrProofs.CLinkSync", "RtrProofs.CLinkErr", "RtrProofs.CLinkIo"],
         "theorems": ["Rtr.CLink.rtr_send_serial_query_eq", "Rtr.CLink.rtr_send_reset_query_eq", "Rtr.CLink.serial_query_contents", "Rtr.CLink.reset_query_contents", "Rtr.CLink.rtr_handle_cache_response_pdu_eq", "Rtr.CLink.cache_response_adopts_session", "Rtr.CLink.cache_response_foreign_session", "Rtr.CLink.cache_response_same_session", "Rtr.CLink.rtr_sync_eq", "Rtr.CLink.sync_success_order",
                      "Rtr.CLink.rtr_fsm_step_eq", "Rtr.CLink.fsm_connecting_query_choice", "Rtr.CLink.fsm_connecting_open_fails",
-                     "Rtr.CLink.fsm_reset_query", "Rtr.CLink.fsm_no_data_retry", "Rtr.CLink.fsm_no_incr_retry", "Rtr.CLink.stop_purges"],
-        "functions": ["rtr_send_serial_query", "rtr_send_reset_query", "rtr_handle_cache_response_pdu", "rtr_sync", "rtr_fsm_start", "rtr_stop"],
-        "ops": "fsm+proto",
+                     "Rtr.CLink.fsm_reset_query", "Rtr.CLink.fsm_no_data_retry", "Rtr.CLink.fsm_no_incr_retry", "Rtr.CLink.stop_purges",
+                     "Rtr.CLink.Err.rtr_send_pdu_eq", "Rtr.CLink.Err.send_pdu_sends", "Rtr.CLink.tr_send_all_eq", "Rtr.CLink.tr_send_all_chunks"],
+        "functions": ["rtr_send_serial_query", "rtr_send_reset_query", "rtr_handle_cache_response_pdu", "rtr_sync", "rtr_fsm_start", "rtr_stop",
+                      "rtr_send_pdu", "tr_send_all"],
+        "ops": "fsm+proto+io",
+    },
+    # the decision "build the new set in shadow tables and swap" is taken from socket fields (request_session_id, last_update, is_resetting)
+    # that the handlers of the synchronisation path write: a reload is atomic only if they are written as specified
+    "C06": {
+        "modules": ["RtrProofs.CLinkSync"],
+        "theorems": ["Rtr.CLink.rtr_handle_error_pdu_eq", "Rtr.CLink.error_pdu_downgrade", "Rtr.CLink.error_pdu_no_downgrade",
+                     "Rtr.CLink.rtr_handle_cache_response_pdu_eq", "Rtr.CLink.cache_response_adopts_session", "Rtr.CLink.rtr_sync_eq",
+                     "Rtr.CLink.sync_success_order", "Rtr.CLink.rtr_send_reset_query_eq", "Rtr.CLink.rtr_set_last_update_eq"],
+        "functions": ["rtr_handle_error_pdu", "rtr_handle_cache_response_pdu", "rtr_sync", "rtr_send_reset_query", "rtr_set_last_update"],
+        "ops": "proto",
     },
     "C13": {
         "modules": ["RtrProofs.CLinkFsm"],
@@ -118,7 +130,7 @@ LINKS = {
 }
 
 # properties whose link theorems are registered (a property is added here when its CLink module is complete)
-ENABLED = ["C17", "C10", "C14", "C01", "C04", "C05", "C07", "C08", "C13"]
+ENABLED = ["C17", "C10", "C14", "C01", "C04", "C05", "C07", "C08", "C13", "C06"]
 
 U32 = 2 ** 32
 
